@@ -298,6 +298,7 @@ pub struct RunRecord {
     pub reads: Vec<(u64, usize)>,
     pub write_calls: Vec<(u64, usize, i64)>,
     pub torn_pending_at: Option<u64>,
+    pub eof_spin: bool,
 }
 
 fn outcome_term(r: &Result<(), passage_protocol::Error>) -> String {
@@ -586,7 +587,7 @@ pub fn run_scenario(sc: &Scenario, rng: &mut Rng) -> RunRecord {
         let l = log.lock().unwrap();
         rec.calls = l.calls.clone(); rec.call_seq = l.call_seq.clone(); rec.results = l.results.clone(); rec.loc = l.loc.clone();
         let s = pipe.st.lock().unwrap();
-        rec.wire_out = s.out_log.clone(); rec.reads = s.reads.clone(); rec.write_calls = s.write_calls.clone(); rec.torn_pending_at = s.torn_pending_at;
+        rec.wire_out = s.out_log.clone(); rec.reads = s.reads.clone(); rec.write_calls = s.write_calls.clone(); rec.torn_pending_at = s.torn_pending_at; rec.eof_spin = s.eof_spin;
         rec
     })
 }
